@@ -236,10 +236,15 @@ ExpDen(m, n, g(_, _)) == MapThenSumSet(LAMBDA s : m.w[s] * (m.v[s].k * g(s, m.v[
 WorstB(p, x) ==
     Max({MapThenSumSet(LAMBDA s : w[s] * Max({FVal(p, x, v, 1) : v \in SuppVert(p.supp, s)}), 1..p.ns)
            : w \in ProbVert(p.prob, p.ns)})
+\* expectation constraints: econ = t means E(Piece(t)) <= 0, econ = 100 + t means the EQUALITY E(Piece(t)) == 0 (both directions
+\* for every member distribution)
+EEq(p) == p.econ >= 100
+EIdx(p) == IF p.econ >= 100 THEN p.econ - 100 ELSE p.econ
 EConOK(p, x) ==
     p.econ = 0 \/
     \A w \in ProbVert(p.prob, p.ns) :
-        MapThenSumSet(LAMBDA s : w[s] * Max({PieceVal(Piece(p.econ), x, v, 1) : v \in SuppVert(p.supp, s)}), 1..p.ns) <= 0
+        /\ MapThenSumSet(LAMBDA s : w[s] * Max({PieceVal(Piece(EIdx(p)), x, v, 1) : v \in SuppVert(p.supp, s)}), 1..p.ns) <= 0
+        /\ EEq(p) => MapThenSumSet(LAMBDA s : w[s] * Min({PieceVal(Piece(EIdx(p)), x, v, 1) : v \in SuppVert(p.supp, s)}), 1..p.ns) >= 0
 ExactB(p) == p.form = "B" /\ p.expt = 0 /\ ~Lifted(p.supp) /\ p.prob <= 5
 \* form C: the worst case over the supports alone (every scenario, whatever its probability)
 WorstC(p, x) == Max({FVal(p, x, v, 1) : v \in UNION {SuppVert(p.supp, s) : s \in 1..p.ns}})
@@ -267,6 +272,7 @@ WellFormed(p) ==
     /\ (p.ns = 1 => p.part = 0 /\ p.prob = 1)
     /\ (p.part = 2 => p.ns = 3)
     /\ HasMember(p)
+    /\ (EEq(p) => p.form \in {"B", "C"} /\ p.expt = 0 /\ ~Lifted(p.supp) /\ p.prob <= 5 /\ p.rsupp = 0)   \* equalities: in the exactly decided sub-family only
     /\ (p.supp \in {1, 6} => p.aff = "a0")          \* affine rules on singleton supports are degenerate
 
 Programs ==
@@ -292,7 +298,7 @@ Rec(p) ==
                   [ev |-> SetToSeq(Event(ExptSets(p.expt)[i].ev, p.ns)), lo2 |-> ExptSets(p.expt)[i].lo2, hi2 |-> ExptSets(p.expt)[i].hi2,
                    norm |-> ExptSets(p.expt)[i].norm, mu2 |-> ExptSets(p.expt)[i].mu2, r2 |-> ExptSets(p.expt)[i].r2]],
      piece1 |-> Piece(ObjPiecePair(p)[1]), piece2 |-> Piece(ObjPiecePair(p)[2]),
-     econ |-> IF p.econ = 0 THEN Piece(7) ELSE Piece(p.econ),
+     econ |-> IF p.econ = 0 THEN Piece(7) ELSE Piece(EIdx(p)), econEq |-> EEq(p),
      events |-> [s \in 1..p.ns |-> EventOfScen(p.part, s)],
      nmembers |-> IF Lifted(p.supp) THEN -1 ELSE Cardinality(Members(p)),      \* lifted: counted by the validator
      exact |-> ExactB(p) \/ ExactC(p), gridFeasible |-> g.feasible, gridOptDen |-> g.val]
@@ -320,7 +326,8 @@ PostObj(M) ==    \* the reported optimum bounds the expectation under every memb
         ELSE ExpDen(m, P.ns, LAMBDA s, v : YAt(s, v)) <= 4 * DEN * (res.obj + res.tol)
 PostECon(M) ==
     P.econ = 0 \/
-    \A m \in M : ExpDen(m, P.ns, LAMBDA s, v : PieceVal(Piece(P.econ), res.x, v, SC)) <= 4 * DEN * res.tol
+    \A m \in M : /\ ExpDen(m, P.ns, LAMBDA s, v : PieceVal(Piece(EIdx(P)), res.x, v, SC)) <= 4 * DEN * res.tol
+                 /\ EEq(P) => ExpDen(m, P.ns, LAMBDA s, v : PieceVal(Piece(EIdx(P)), res.x, v, SC)) >= - 4 * DEN * res.tol
 PostNonAnticip ==   \* C13: one rule per declared event, dependence only on declared components
     P.form # "A" \/
     /\ \A s, t \in 1..P.ns : EventOfScen(P.part, s) = EventOfScen(P.part, t) =>
